@@ -267,10 +267,16 @@ def check_completion(res, ws, o, a, mk):
         clash = {(al or name) for (ti, alias, unq) in m.imports for (name, al, is_type, d) in unq
                  if not is_type and clash_known(ws, d)}
         causes = {}
+        text_b = ws.files[o.file][1].encode("utf-8")
+        # inside the operand of a prefix operator: `!name` or an argument of `!name(a, b)`
+        line_b = text_b[text_b.rfind(b"\n", 0, o.offset) + 1:o.offset]
+        bang = line_b.rfind(b"!")
+        under_prefix = bang >= 0 and re.fullmatch(rb"[A-Za-z0-9_(), ]*", line_b[bang + 1:]) is not None
         for x in missing:
             k = ("C18/aliased-import-offered-under-original-name" if x in aliased else
                  "C18/import-value-type-clash" if x in clash else
-                 ("C18/empty-answer" if not got else "C18/missing-names"))
+                 ("C18/no-completions-under-prefix-operator" if (not got and under_prefix) else
+                  "C18/empty-answer" if not got else "C18/missing-names"))
             causes.setdefault(k, []).append(x)
         for x in extra:
             k = "C18/aliased-import-offered-under-original-name" if x in aliased.values() else "C18/extra-names"
